@@ -97,7 +97,8 @@ def get_widths2(seq: Iterable[object]) -> Dict[int, Tuple[float, Point]]:
             if r:
                 char1 = r[-1]
                 for i, (w, vx, vy) in enumerate(choplist(3, v)):
-                    widths[cast(int, char1) + i] = (w, (vx, vy))
+                    if all(isinstance(x, (int, float)) for x in (w, vx, vy)):
+                        widths[cast(int, char1) + i] = (w, (vx, vy))
                 r = []
         elif isinstance(v, (int, float)):  # == utils.isnumber(v)
             r.append(v)
@@ -1151,7 +1152,10 @@ class PDFCIDFont(PDFFont):
             # writing mode: vertical
             widths2 = get_widths2(list_value(spec.get("W2", [])))
             self.disps = {cid: (vx, vy) for (cid, (_, (vx, vy))) in widths2.items()}
-            (vy, w) = resolve1(spec.get("DW2", [880, -1000]))
+            dw2 = [resolve1(v) for v in list_value(spec.get("DW2", [880, -1000]))]
+            if len(dw2) != 2 or not all(isinstance(v, (int, float)) for v in dw2):
+                dw2 = [880, -1000]
+            (vy, w) = dw2
             self.default_disp = (None, vy)
             widths: Dict[Union[str, int], float] = {
                 cid: w for (cid, (w, _)) in widths2.items()
